@@ -64,6 +64,21 @@ func (ex *Exec) binop(st *State, fr *Frame, x *ssa.BinOp) Val {
 			return mk(wrapTerm(t, term))
 		case token.QUO:
 			ex.safety(st, fr, x, "divzero", "quo", "(distinct "+b.T+" 0)")
+			if bl, bh, ok := b.bounds(); ok && b.Lo != nil && (bl.Sign() > 0 || bh.Cmp(big.NewInt(-1)) < 0) {
+				// |quotient| <= |dividend|: no overflow unless the divisor can be -1
+				qv := mk("(tdiv " + a.T + " " + b.T + ")")
+				if al, ah, ok2 := a.bounds(); ok2 && bl.Sign() > 0 {
+					lo, hi := new(big.Int).Set(al), new(big.Int).Set(ah)
+					if lo.Sign() > 0 {
+						lo = big.NewInt(0)
+					}
+					if hi.Sign() < 0 {
+						hi = big.NewInt(0)
+					}
+					qv.Lo, qv.Hi = lo, hi
+				}
+				return qv
+			}
 			return mk(wrapTerm(t, "(tdiv "+a.T+" "+b.T+")"))
 		case token.REM:
 			ex.safety(st, fr, x, "divzero", "rem", "(distinct "+b.T+" 0)")
